@@ -21,6 +21,8 @@ pub enum Tail {
     Custom,
     /// one custom item without member section (Broadcast datagrams)
     CustomOnly,
+    /// member section with count 0 + two custom items of 3 bytes
+    Custom2,
 }
 
 pub struct Dgram {
@@ -32,6 +34,7 @@ pub struct Dgram {
     pub n: u8,
     pub update: Option<Rec>,
     pub item: Option<[u8; 3]>,
+    pub item2: Option<[u8; 3]>,
     /// wire bytes: a fixed array + concrete length (a `Vec` hides the length from
     /// CBMC's constant propagation and every length check becomes symbolic)
     pub bytes: [u8; 24],
@@ -61,7 +64,16 @@ pub fn arb_dgram(s: &mut impl Src, tag: u8, tail: Tail) -> Dgram {
     let mut len = HDR;
     let mut update = None;
     let mut item = None;
+    let mut item2 = None;
     match tail {
+        Tail::Custom2 => {
+            let a = [s.u8(), s.u8(), s.u8()];
+            let b = [s.u8(), s.u8(), s.u8()];
+            bytes[HDR..HDR + 12].copy_from_slice(&[0, 0, 0, 3, a[0], a[1], a[2], 0, 3, b[0], b[1], b[2]]);
+            len = HDR + 12;
+            item = Some(a);
+            item2 = Some(b);
+        }
         Tail::None => {}
         Tail::Zero => {
             len = HDR + 2;
@@ -95,6 +107,7 @@ pub fn arb_dgram(s: &mut impl Src, tag: u8, tail: Tail) -> Dgram {
         n,
         update,
         item,
+        item2,
         bytes,
         len,
     }
@@ -295,7 +308,14 @@ fn d_step<S: Src>(s: &mut S, tag: u8, tail: Tail, sh: Shape) {
         }
     }
     // custom item delivery
-    if let Some(it) = d.item {
+    if let (Some(a), Some(b)) = (d.item, d.item2) {
+        vassert!(post.handler_n == pre.handler_n + 2, "c16: the handler sees each received item once");
+        let (b0, l0, s0) = f.broadcast_handler.items[pre.handler_n];
+        let (b1, l1, s1) = f.broadcast_handler.items[pre.handler_n + 1];
+        vassert!(l0 == 3 && b0[0] == a[0] && b0[1] == a[1] && b0[2] == a[2] && s0 == Some(d.src)
+            && l1 == 3 && b1[0] == b[0] && b1[1] == b[1] && b1[2] == b[2] && s1 == Some(d.src),
+            "c16: the handler sees exactly the items sent, in order, with the sender's identity");
+    } else if let Some(it) = d.item {
         vassert!(post.handler_n == pre.handler_n + 1, "c16: the handler sees each received item once");
         let (b, l, snd) = f.broadcast_handler.items[pre.handler_n];
         vassert!(l == 3 && b[0] == it[0] && b[1] == it[1] && b[2] == it[2] && snd == Some(d.src),
@@ -527,3 +547,11 @@ dh!(d_ack_upd, 1, Tail::One, sh(1));
 // custom broadcast items
 dh!(d_gossip_custom, 8, Tail::Custom, sh(1));
 dh!(d_broadcast_custom, 9, Tail::CustomOnly, sh(1));
+dh!(d_ack_custom2, 1, Tail::Custom2, sh(1));
+// two helpers asked: each counted once
+dh!(d_fwd_ack_2, 5, Tail::Zero, {
+    let mut x = sh(2);
+    x.n_ind = 2;
+    x.fanout = Some(2);
+    x
+});
